@@ -42,6 +42,9 @@ func BuildKernsim() (string, error) {
 		h.Write([]byte(f))
 		h.Write(b)
 	}
+	flags := []string{"-O1", "-g", "-fsanitize=address,undefined", "-fno-sanitize=alignment", "-fno-sanitize-recover=all", "-fno-omit-frame-pointer",
+		"-Wno-address-of-packed-member"}
+	h.Write([]byte(strings.Join(flags, " ")))
 	tag := hex.EncodeToString(h.Sum(nil)[:8])
 	dir := filepath.Join(vd, "build", "kernsim", tag)
 	bin := filepath.Join(dir, "kernsim")
@@ -55,10 +58,9 @@ func BuildKernsim() (string, error) {
 		return "", fmt.Errorf("genmaps: %v: %s", err, out)
 	}
 	tmp := bin + ".tmp"
-	args := []string{"-O1", "-g", "-fsanitize=address,undefined", "-fno-sanitize-recover=all", "-fno-omit-frame-pointer",
-		"-Wno-address-of-packed-member",
+	args := append(append([]string(nil), flags...),
 		"-I", filepath.Join(vd, "cshim"), "-I", dir, "-I", filepath.Join(repo, "control", "kern"),
-		"-DTPROXY_C=\"" + tproxy + "\"", filepath.Join(vd, "kernsim", "kernsim.c"), "-o", tmp}
+		"-DTPROXY_C=\"" + tproxy + "\"", filepath.Join(vd, "kernsim", "kernsim.c"), "-o", tmp)
 	if out, err := exec.Command("clang", args...).CombinedOutput(); err != nil {
 		return "", fmt.Errorf("clang: %v: %s", err, out)
 	}
@@ -81,6 +83,7 @@ type KS struct {
 	dead    error
 	pending int
 	q       []uint8
+	kicked  bool
 }
 
 // StartKernsim launches a fresh child. Every command is appended to a replay
@@ -248,7 +251,15 @@ func (k *KS) expect(op uint8) {
 }
 func (k *KS) ackFlush() { k.expect(0) }
 
+// pre drains queued commands before a synchronous command.
+func (k *KS) pre() {
+	if len(k.q) > 0 || k.kicked {
+		k.Sync()
+	}
+}
+
 func (k *KS) Reset() {
+	k.pre()
 	var b kbuf
 	b.u8(1)
 	k.send(&b)
@@ -259,6 +270,7 @@ func (k *KS) Reset() {
 
 // MapUpdate writes raw key/value bytes into a named map.
 func (k *KS) MapUpdate(name string, key, val []byte, flags uint64) (rc int32, keySize, valSize uint32) {
+	k.pre()
 	var b kbuf
 	b.u8(2)
 	b.bs([]byte(name))
@@ -281,6 +293,7 @@ type pend struct {
 }
 
 func (k *KS) MapDelete(name string, key []byte) int32 {
+	k.pre()
 	var b kbuf
 	b.u8(3)
 	b.bs([]byte(name))
@@ -294,6 +307,7 @@ func (k *KS) MapDelete(name string, key []byte) int32 {
 }
 
 func (k *KS) MapGet(name string, key []byte) (val []byte, ok bool) {
+	k.pre()
 	var b kbuf
 	b.u8(4)
 	b.bs([]byte(name))
@@ -310,6 +324,7 @@ func (k *KS) MapGet(name string, key []byte) (val []byte, ok bool) {
 type KV struct{ Key, Val []byte }
 
 func (k *KS) MapDump(name string) []KV {
+	k.pre()
 	var b kbuf
 	b.u8(5)
 	b.bs([]byte(name))
@@ -331,6 +346,7 @@ type LpmEnt struct {
 }
 
 func (k *KS) LpmSet(slot uint32, ents []LpmEnt) (rc int32, keySize uint32) {
+	k.pre()
 	var b kbuf
 	b.u8(6)
 	b.u32(slot)
@@ -349,6 +365,7 @@ func (k *KS) LpmSet(slot uint32, ents []LpmEnt) (rc int32, keySize uint32) {
 }
 
 func (k *KS) SetParam(raw []byte) (cSize uint32) {
+	k.pre()
 	var b kbuf
 	b.u8(7)
 	b.bs(raw)
@@ -361,6 +378,7 @@ func (k *KS) SetParam(raw []byte) (cSize uint32) {
 }
 
 func (k *KS) SetTime(ns uint64) {
+	k.pre()
 	var b kbuf
 	b.u8(8)
 	b.u64(ns)
@@ -380,6 +398,7 @@ type RouteReq struct {
 
 // Routes runs route() for a batch and returns the raw s64 results.
 func (k *KS) Routes(reqs []RouteReq) []int64 {
+	k.pre()
 	for i := range reqs {
 		var b kbuf
 		b.u8(9)
@@ -505,6 +524,7 @@ func (k *KS) recvPkt() (r PktRes) {
 }
 
 func (k *KS) Pkt(p *PktReq) PktRes {
+	k.pre()
 	k.sendPkt(p)
 	k.flush()
 	r := k.recvPkt()
@@ -513,6 +533,7 @@ func (k *KS) Pkt(p *PktReq) PktRes {
 }
 
 func (k *KS) Layout() string {
+	k.pre()
 	var b kbuf
 	b.u8(11)
 	k.send(&b)
@@ -524,6 +545,7 @@ func (k *KS) Layout() string {
 }
 
 func (k *KS) SetMax(name string, max uint32) uint32 {
+	k.pre()
 	var b kbuf
 	b.u8(12)
 	b.bs([]byte(name))
@@ -542,6 +564,7 @@ type MapInfo struct {
 }
 
 func (k *KS) MapInfo() []MapInfo {
+	k.pre()
 	var b kbuf
 	b.u8(13)
 	k.send(&b)
@@ -605,6 +628,23 @@ func (k *KS) QPkt(p *PktReq) {
 	k.q = append(k.q, 10)
 }
 
+func (k *KS) QMapGet(name string, key []byte) {
+	var b kbuf
+	b.u8(4)
+	b.bs([]byte(name))
+	b.bs(key)
+	k.send(&b)
+	k.q = append(k.q, 4)
+}
+
+func (k *KS) QSetParam(raw []byte) {
+	var b kbuf
+	b.u8(7)
+	b.bs(raw)
+	k.send(&b)
+	k.q = append(k.q, 7)
+}
+
 func (k *KS) QSetTime(ns uint64) {
 	var b kbuf
 	b.u8(8)
@@ -619,10 +659,24 @@ type QResult struct {
 	Rc    int32
 	Route int64
 	Pkt   PktRes
+	Found bool   // MapGet
+	Val   []byte // MapGet
+}
+
+// Kick sends the queued commands (with the flush marker) without waiting, so
+// that several children can work in parallel; the following Sync collects.
+func (k *KS) Kick() {
+	if !k.kicked {
+		k.flush()
+		k.kicked = true
+	}
 }
 
 func (k *KS) Sync() []QResult {
-	k.flush()
+	if !k.kicked {
+		k.flush()
+	}
+	k.kicked = false
 	out := make([]QResult, 0, len(k.q))
 	for _, op := range k.q {
 		var r QResult
@@ -635,6 +689,13 @@ func (k *KS) Sync() []QResult {
 			k.ru32()
 		case 3:
 			k.expect(3)
+			r.Rc = int32(k.ru32())
+		case 4:
+			k.expect(4)
+			r.Found = k.ru8() != 0
+			r.Val = k.rbs()
+		case 7:
+			k.expect(7)
 			r.Rc = int32(k.ru32())
 		case 8:
 			k.expect(8)
